@@ -18,6 +18,7 @@ import ast
 import copy
 import gc
 import itertools
+import json
 import math
 import pickle
 import weakref
@@ -684,6 +685,7 @@ class World:
         self.data_is_arg = {True: 0, False: 0}
         self.pinned_raw = set()
         self.pinned_per_table = {}
+        self.declined = {}         # recipe -> exception text, if its construction raised during the warm-up
         self.pinned = []           # [(slot, table name, mcls, args tuple, obj)]
         self.tables = {}           # table name -> dict object
         import importlib
@@ -758,7 +760,11 @@ def _warm_up(w, rng):
     for interp in ("reflect", "lazy", "eager"):
         for r in RECIPES:
             if interp in r.interps and all((n in ARR_SLOTS) or (n in w.H) for n in r.needs):
-                w.H[r.name] = w.build(r, interp)
+                try:
+                    w.H[r.name] = w.build(r, interp)
+                except Exception as e:     # a recipe the code (now) declines: the history streams report it
+                    w.declined[r.name] = f"{type(e).__name__}: {e}"[:200]
+                    e = None
 
 
 def _collect_pins(w):
@@ -1078,7 +1084,16 @@ class Run:
             toks = []
             for a in args:
                 enc(a, w.ids, toks)
-            obj = w.build(r, sym[2], args)
+            try:
+                obj = w.build(r, sym[2], args)
+            except Exception as e:
+                # the code declines this call: note it, leave the handle as it was, go on with the history
+                if self.error is None:
+                    self.error = f"step {len(self.real_obs) - 1} {call_src(r)}: {type(e).__name__}: {e}"[:400]
+                e = None
+                del args
+                self.observe(sym)
+                return
             w.H[r.name] = obj
             if self.stale is None:
                 self.stale = stale_request(r, args, obj, w)
@@ -1408,6 +1423,7 @@ def run_py_oracle(w, hist, rng):
     """Execute `hist` on the real side only, checking the Python oracle after each step.
     Returns a description of the first violation or None."""
     w.built_from = {}
+    w.last_raised = None
     arr_gen = {sl: 0 for sl in ARR_SLOTS.values()}
     for k in ARR_GROUPS:
         w.A.update(new_group(k, rng))
@@ -1418,7 +1434,13 @@ def run_py_oracle(w, hist, rng):
             if kind == "mk":
                 r = RBY[sym[1]]
                 prev = w.H.get(r.name)
-                obj = w.build(r, sym[2])
+                try:
+                    obj = w.build(r, sym[2])
+                except Exception as e:
+                    if w.last_raised is None:
+                        w.last_raised = f"step {n}: the legal call {call_src(r)} raised {type(e).__name__}: {e}"[:300]
+                    e = None
+                    continue
                 gen = tuple(arr_gen[ARR_SLOTS[x]] if x in ARR_SLOTS else id(w.H[x]) for x in r.needs)
                 if prev is not None and w.built_from.get(r.name) == gen and prev is not obj and r.name != "nan_f":
                     return f"step {n}: {r.name} rebuilt from identical arguments gave a different object"
@@ -1692,10 +1714,12 @@ def run_batch(ctx, w, hists, label):
     for run, ans in zip(runs, answers):
         hist = run.hist
         if run.error is not None:
-            ctx.fail("correspondence", "C07.real-step-raised", witness={"history": sym_json(hist), "stream": label},
-                     got=run.error, expected="every step of a generated history is a legal funsor call",
-                     python=python_snippet(hist, run.error))
-            continue
+            # the code declines a call the model constructs: a broken correspondence, not (by itself) a wrong
+            # identity — no witness here, `search` looks for one and falls back to this history
+            ctx.count("real-step-raised")
+            ctx.fail("correspondence", "C07.real-step-raised", got=run.error,
+                     expected="every step of a generated history is a legal funsor call",
+                     detail=json.dumps({"history": sym_json(hist), "stream": label}))
         if not ans.startswith("ok "):
             ctx.infra_errors.append(f"driver: {ans} for history {hist}")
             continue
@@ -1845,14 +1869,26 @@ def search(ctx, broken):
         w = World(rows)
         warm_up_and_pin(w, ctx.rng)
         core = [r for r in RECIPES if r.core]
-        hs = [fill_interps(h, ctx.rng) for h in enumerate_histories(3, core)]
+        hs = [fill_interps(h, ctx.rng) for _ in range(3) for h in callform_histories(ctx.rng)]
+        hs += [fill_interps(h, ctx.rng) for h in enumerate_histories(3, core)]
         hs += [fill_interps(random_history(ctx.rng, ctx.rng.randint(4, 30), RECIPES), ctx.rng) for _ in range(4000)]
-        for hist in hs:
-            try:
-                v = run_py_oracle(w, hist, ctx.rng)
-            except Exception as e:
-                v = f"raised {type(e).__name__}: {e}"
-                e = None
+        raised = None
+        for n, hist in enumerate(hs + [None]):
+            if hist is None:
+                # no wrong identity found: fall back to the first history on which a legal call raised
+                if raised is None:
+                    return
+                hist, v = raised
+            else:
+                try:
+                    v = run_py_oracle(w, hist, ctx.rng)
+                    if not v and raised is None and getattr(w, "last_raised", None):
+                        raised = (hist, w.last_raised)
+                except Exception as e:
+                    if raised is None:
+                        raised = (hist, f"a legal constructor call raised {type(e).__name__}: {e}"[:300])
+                    e = None
+                    continue
             if v:
                 ctx.fail("input", "C07.oracle", witness={"history": sym_json(hist), "what": v},
                          expected="identity <=> equal arguments; nothing survives drop-all + gc", got=v,
